@@ -33,6 +33,7 @@ type Obligation struct {
 	ctx     *Ctx
 	Result  *SolveResult
 	Comment string
+	AutoFrame string // key of the speculative loop frame this obligation checks
 
 	replayConfirmed bool
 	replayNote      string
@@ -63,12 +64,14 @@ type Ctx struct {
 	obls    []*Obligation
 	discard bool // dry-run mode: obligations and assumptions are dropped
 	named   map[string]Term
+	defs    map[string]string // named constant -> defining term
+	birth   map[string]int    // fresh reference -> index at allocation
 	notes   []string
 	assumed map[string]bool // assumption registry (for evidence)
 }
 
 func NewCtx() *Ctx {
-	return &Ctx{named: map[string]Term{}, assumed: map[string]bool{}}
+	return &Ctx{named: map[string]Term{}, assumed: map[string]bool{}, defs: map[string]string{}, birth: map[string]int{}}
 }
 
 var nameClean = regexp.MustCompile(`[^A-Za-z0-9_.$]`)
@@ -77,7 +80,23 @@ func (c *Ctx) Fresh(hint string, s Sort) Term {
 	c.n++
 	name := fmt.Sprintf("%s!%d", nameClean.ReplaceAllString(hint, "_"), c.n)
 	c.lines = append(c.lines, fmt.Sprintf("(declare-fun %s () %s)", name, s))
-	return Term{name, s}
+	return Term{S: name, Sort: s}
+}
+
+// NameAlways binds any compound term to a constant (program integer values stay atoms, so that
+// array indices keep the shape base+atom that quantifier triggers match).
+func (c *Ctx) NameAlways(hint string, t Term) Term {
+	if !strings.ContainsAny(t.S, " ") {
+		return t
+	}
+	if v, ok := c.named[t.S]; ok {
+		return v
+	}
+	v := c.Fresh(hint, t.Sort)
+	c.lines = append(c.lines, fmt.Sprintf("(assert (= %s %s))", v.S, t.S))
+	c.named[t.S] = v
+	c.defs[v.S] = t.S
+	return v
 }
 
 // FreshGlobal declares a constant in the never-truncated preamble.
@@ -85,7 +104,7 @@ func (c *Ctx) FreshGlobal(hint string, s Sort) Term {
 	c.n++
 	name := fmt.Sprintf("%s!%d", nameClean.ReplaceAllString(hint, "_"), c.n)
 	c.globals = append(c.globals, fmt.Sprintf("(declare-fun %s () %s)", name, s))
-	return Term{name, s}
+	return Term{S: name, Sort: s}
 }
 
 // Name binds t to a fresh constant (sharing).
@@ -99,6 +118,7 @@ func (c *Ctx) Name(hint string, t Term) Term {
 	v := c.Fresh(hint, t.Sort)
 	c.lines = append(c.lines, fmt.Sprintf("(assert (= %s %s))", v.S, t.S))
 	c.named[t.S] = v
+	c.defs[v.S] = t.S
 	return v
 }
 
